@@ -94,8 +94,11 @@ def r2(run):
             continue
         mk = info["make"][0]
         bl = mk.dest["l"] if not mk.dest["p"] else None
+        same = q.move_aliases(b, bl) if bl is not None else set()
         for c in info["ops"] + info["commits"]:
             rl = q.root_local(b, c.args[0])
+            if rl in same:
+                rl = bl
             run.ob(cons + "|same-batch|%s@%s" % (c.fn.split("::")[-1], partition_field(c) if c.fn != C.BATCH_COMMIT else "commit"),
                    rl == bl, c.sp, "%s operates on the one batch of this function" % c.fn.split("::")[-1], reason="split-batch")
         parts = sorted(partition_field(c) or "?" for c in info["ops"])
